@@ -2,6 +2,12 @@
 
 package s3db
 
-import "time"
+import (
+	"time"
+
+	"google.golang.org/protobuf/proto"
+)
 
 func verifNow() (time.Time, bool) { return time.Time{}, false }
+
+func verifMarshal(proto.Message) ([]byte, error, bool) { return nil, nil, false }
